@@ -642,7 +642,7 @@ def nontrivial(case, io):
 
 def distribution(cases, obs):
     d = {'style': {}, 'yield': {}, 'form': {}, 'natives_per_case': {}, 'queried_before_registration': sum(1 for c in cases if c.get('pre') is not None), 're_registered': sum(1 for c in cases if c.get('decoy') and c.get('pre')), 'raising': 0, 'with_dynamic_facts': 0, 'ends_A': {},
-         'python_predicate_calls': 0, 'constructs': {}}
+         'python_predicate_calls': 0, 'constructs': {}, 'replaced_rows': {}}
     for c, o in zip(cases, obs):
         for s in c['native']:
             for k in ('style', 'yield', 'form'):
@@ -650,6 +650,14 @@ def distribution(cases, obs):
         n = str(len(c['native']))
         d['natives_per_case'][n] = d['natives_per_case'].get(n, 0) + 1
         d['raising'] += any(s.get('raise') is not None for s in c['native'])
+        # rows of the replaced predicates by the class the theorems for rows with variables distinguish (Sem/NativeRename.v)
+        facts = fact_preds(numbered(c))
+        for s in c['native']:
+            for row in facts.get((s['name'], s['arity']), []):
+                tops = [a[1] for a in row if a[0] == 'var']
+                nv = row_terms(row)[1]
+                k = 'ground' if nv == 0 else ('aliased argument (checked only)' if any(tops.count(v) == 1 for v in tops) else 'variables, no aliased argument (proved)')
+                d['replaced_rows'][k] = d['replaced_rows'].get(k, 0) + 1
         d['with_dynamic_facts'] += bool(c['dyn'])
         cs = set()
         for _, _, b in c['clauses']:
